@@ -148,6 +148,29 @@ var c13Optional = map[string][]string{
 	"ValueSpec": {"Type"}, "TypeSpec": {"TypeParams"}, "FuncDecl": {"Recv", "Body"}, "ArrayType": {"Len"}, "CommClause": {"Comm"},
 }
 
+// c13Containers names the fields of n that point to a node which only groups a list (FieldList, BlockStmt).
+func c13Containers(n dst.Node) []string {
+	var out []string
+	v := reflect.ValueOf(n).Elem()
+	for i := 0; i < v.NumField(); i++ {
+		switch v.Field(i).Type() {
+		case reflect.TypeOf((*dst.FieldList)(nil)), reflect.TypeOf((*dst.BlockStmt)(nil)):
+			out = append(out, v.Type().Field(i).Name)
+		}
+	}
+	return out
+}
+
+func nodesOf(log []visitRec) []dst.Node {
+	var out []dst.Node
+	for _, r := range log {
+		if r.n != nil {
+			out = append(out, r.n)
+		}
+	}
+	return out
+}
+
 // the canonical corpus plus valid files that are not gofmt's output (explicit empty statements, parentheses)
 func c13Templates() []gen.Template {
 	ts := append(append([]gen.Template{}, gen.Templates()...), gen.Load("noncanonical.txt")...)
@@ -168,7 +191,7 @@ func init() {
 	core.Register(&core.Prop{
 		ID:    "C13",
 		Level: "model_checking",
-		Rule: "for every corpus tree (canonical, non-canonical and syntactically broken sources with BadDecl/BadStmt/BadExpr nodes): Inspect/Walk visit logs under every single-node pruning predicate (one run per visited node; thorough: every pair of nodes), every node-type predicate, every removal of one optional child and of all at once, the traversal rooted at every inner node instead of the file, the callback leaving through a panic at every call (no call may follow), " +
+		Rule: "for every corpus tree (canonical, non-canonical and syntactically broken sources with BadDecl/BadStmt/BadExpr nodes): Inspect/Walk visit logs under every single-node pruning predicate (one run per visited node; thorough: every pair of nodes), every node-type predicate, every removal of one optional child and of all at once, every field-list / block child replaced by an empty one (singly and all at once), the traversal rooted at every inner node instead of the file, the callback leaving through a panic at every call (no call may follow), " +
 			"a visitor that hands a different visitor to each subtree, and a 3-file Package; oracle = reflection-derived child lists (exactly once, parent first, nil after children, pruned subtrees skipped) " +
 			"and go/ast.Inspect of the original ast mapped through the decorator's node map; state = (tree, predicate); non-trivial = predicate that prunes a node with children",
 		Assumptions: []string{"go/ast.Inspect of this toolchain is the reference traversal order", "struct field order of dst node types equals source order of children (checked against go/ast on every tree)"},
@@ -234,6 +257,14 @@ func runC13(ctx *core.Ctx, unit int) {
 		idx++
 	}
 	run(c13Case{Template: t.Name, Mode: "remove-all"}, true)
+	// every container child (field list, block) present but empty - a shape the parser produces only for
+	// unusual sources (func f() () {}) and hand-built trees produce freely: each singly, and all at once
+	for i, nd := range nodesOf(ref) {
+		for _, fld := range c13Containers(nd) {
+			run(c13Case{Template: t.Name, Mode: "empty", Index: i, Field: fld}, true)
+		}
+	}
+	run(c13Case{Template: t.Name, Mode: "empty-all"}, true)
 	// the visitor abandons the traversal (panic + recover, the stop-at-first-match idiom) at every call
 	for k := range ref {
 		run(c13Case{Template: t.Name, Mode: "abort", Index: k}, true)
@@ -302,6 +333,16 @@ func c13Check(cs c13Case, ctx *core.Ctx) core.Outcome {
 		target := nodes[cs.Index]
 		fv := reflect.ValueOf(target).Elem().FieldByName(cs.Field)
 		fv.Set(reflect.Zero(fv.Type()))
+	case "empty":
+		fv := reflect.ValueOf(nodes[cs.Index]).Elem().FieldByName(cs.Field)
+		fv.Set(reflect.New(fv.Type().Elem()))
+	case "empty-all":
+		for _, n := range nodes {
+			for _, fld := range c13Containers(n) {
+				fv := reflect.ValueOf(n).Elem().FieldByName(fld)
+				fv.Set(reflect.New(fv.Type().Elem()))
+			}
+		}
 	case "remove-all":
 		for _, n := range nodes {
 			for _, fld := range c13Optional[reflect.TypeOf(n).Elem().Name()] {
@@ -372,7 +413,7 @@ func c13Check(cs c13Case, ctx *core.Ctx) core.Outcome {
 		}
 		return fail(key, "visit log differs from the reflection-derived traversal at position %d\nexpected:\n%sgot:\n%s", i, logString(want, i), logString(got, i))
 	}
-	if cs.Mode != "remove" && cs.Mode != "remove-all" {
+	if cs.Mode != "remove" && cs.Mode != "remove-all" && cs.Mode != "empty" && cs.Mode != "empty-all" {
 		// go/ast.Inspect of the twin, comments excluded, mapped through the node map
 		var alog []visitRec
 		var stack []bool // whether the node was logged
